@@ -108,6 +108,12 @@ Definition global_maximum2 (o : itab2) : res T :=
   rbind (min_element row_minima) (fun f_min => rbind (max_element row_maxima) (fun f_max =>
     Ok (nmax Ops (jpre o * f_min) (jpre o * f_max))%num)))).
 
+(** ** The part of an object that Locate, the knot scan of Local_Minimum/Maximum and Global_Minimum/Maximum read:
+    N, x_values, function_values, prefactor and domain (no Steffen coefficients).  The driver uses it for tables too long
+    to materialise the coefficient lists of at once (C08_Proofs_Life.v: the functions named agree on it with the full object). *)
+Definition skeleton (xs ys : list T) (pre : T) : itab :=
+  mk_itab (length xs) xs ys pre [] [] [] [] (xat Ops xs 0) (xat Ops xs (length xs - 1)).
+
 (** ** The other constructors (the objects the queries above may be made on).
     Interpolation():  x_val = {-1.0, 0.0, 1.0}, y_val = {0.0, 0.0, 0.0};  *this = Interpolation(x_val, y_val);
     Interpolation_2D():  the same abscissae in both directions, a 3x3 table of 0.0 *)
@@ -173,3 +179,43 @@ Definition construct2_table (data : list (list T)) (x_dim y_dim f_dim : T) : res
     if negb (Nat.eqb (length x * length y) (length data)) then Exit
     else rbind (fill_table x y data) (fun f => construct2 Ops x y f x_dim y_dim f_dim)).
 End Model.
+
+(** ** Several objects in one program: copy construction / copy assignment, move, destruction, swap.
+    Every data member of Interpolation and Interpolation_2D is a value (vectors, doubles, ints), so the C++ objects have value
+    semantics: a slot holds a table object or nothing (destroyed / moved-from). *)
+Section Store.
+Context {A : Type}.
+Definition store := list (option A).
+Definition st_get (s : store) (k : nat) : option A := nth k s None.
+Fixpoint st_put (s : store) (k : nat) (v : option A) : store :=
+  match s with
+  | [] => []
+  | a :: r => match k with O => v :: r | S k' => a :: st_put r k' v end
+  end.
+Inductive lop :=
+| LPut (k : nat) (v : A)       (* slot[k] = T(...)  /  new T(...) *)
+| LCopy (k j : nat)            (* slot[k] = slot[j]  /  new T(slot[j]),  also through a by-value parameter or a std::vector element *)
+| LMove (k j : nat)            (* slot[k] = std::move(slot[j]): the source keeps no table *)
+| LDrop (k : nat)              (* delete *)
+| LSwap (k j : nat).           (* std::swap *)
+Definition lstep (s : store) (op : lop) : store :=
+  match op with
+  | LPut k v => st_put s k (Some v)
+  | LCopy k j => st_put s k (st_get s j)
+  | LMove k j => st_put (st_put s k (st_get s j)) j None
+  | LDrop k => st_put s k None
+  | LSwap k j => st_put (st_put s k (st_get s j)) j (st_get s k)
+  end.
+(** the slots an operation writes *)
+Definition writes (op : lop) (i : nat) : bool :=
+  match op with
+  | LPut k _ => Nat.eqb k i
+  | LCopy k _ => Nat.eqb k i
+  | LMove k j => Nat.eqb k i || Nat.eqb j i
+  | LDrop k => Nat.eqb k i
+  | LSwap k j => Nat.eqb k i || Nat.eqb j i
+  end.
+End Store.
+Arguments store A : clear implicits.
+Arguments lop A : clear implicits.
+
